@@ -860,6 +860,10 @@ def gen_foreign(rng, fmt, bad=None):
                 qs = qs + qs[:1]
             plus = b"+" + (ident if rng.random() < 0.3 else b"") + (b" again" if rng.random() < 0.1 else b"")
             if j == badat and bad == "no-plus-line":
+                if qs[:1] == b"+":
+                    # (a quality line which itself starts with '+' would be read as the separator line of a record whose
+                    # quality line is missing: another defect than the one meant here)
+                    qs = b"I" + qs[1:]
                 out += seq + eol + qs + eol
             else:
                 out += seq + eol + plus + eol + (eol if rng.random() < 0.05 else b"") + qs
